@@ -4,6 +4,7 @@ import (
 	"encoding/base64"
 	"encoding/json"
 	"fmt"
+	"net/url"
 	"os"
 	"path/filepath"
 	"strings"
@@ -209,6 +210,16 @@ func isImportAlias(src string, imported string, local string) bool {
 	return local == "default" && strings.HasSuffix(imported, "_default") || strings.HasSuffix(imported, "_exports")
 }
 
+// isPrivateHelperName: name is `<x>_get`, `<x>_set` or `<x>_fn` and the source has a private member `#<x>`
+func isPrivateHelperName(source string, name string) bool {
+	for _, suffix := range []string{"_get", "_set", "_fn"} {
+		if strings.HasSuffix(name, suffix) && strings.Contains(source, "#"+strings.TrimSuffix(name, suffix)) {
+			return true
+		}
+	}
+	return false
+}
+
 func checkSourceMap(code string, mapText string, resolveSource func(string) (string, bool), minifiedIdents bool, stat func(string)) [][2]string {
 	var bad [][2]string
 	foldsStrings := foldsStringsFlag
@@ -234,6 +245,12 @@ func checkSourceMap(code string, mapText string, resolveSource func(string) (str
 	srcStarts := make([][]int, len(m.Sources))
 	for i, s := range m.Sources {
 		content, ok := resolveSource(s)
+		if !ok {
+			// "sources" entries are URLs: non-ASCII path characters arrive percent-encoded
+			if dec, err := url.PathUnescape(s); err == nil && dec != s {
+				content, ok = resolveSource(dec)
+			}
+		}
 		if !ok {
 			add("source-unknown", fmt.Sprintf("sources[%d]=%q is not an input file", i, s))
 			continue
@@ -300,6 +317,10 @@ func checkSourceMap(code string, mapText string, resolveSource func(string) (str
 				stat("name-on-destructuring-key")
 			} else if oTok != m.Names[sg.Name] && !strictAlias && isImportAlias(sources[sg.Src], m.Names[sg.Name], oTok) {
 				stat("alias-name-known-finding")
+			} else if oTok != m.Names[sg.Name] && !strictAlias && isPrivateHelperName(sources[sg.Src], m.Names[sg.Name]) {
+				// same known finding (generated names are recorded as names): the helper symbol `x_get` / `x_set` /
+				// `x_fn` that a lowered private member `#x` is turned into, renamed because of a collision
+				stat("generated-private-helper-name-known-finding")
 			} else if oTok != m.Names[sg.Name] {
 				add("name-not-original-identifier", fmt.Sprintf("segment (%d,%d)->%s(%d,%d) has name %q but the original token there is %q", sg.GenLine, sg.GenCol, m.Sources[sg.Src], sg.Line, sg.Col, m.Names[sg.Name], oTok))
 			}
@@ -336,7 +357,10 @@ func checkSourceMap(code string, mapText string, resolveSource func(string) (str
 		}
 		// string literals: a generated string token must map to a string/template token
 		if code[gOff] == '"' || code[gOff] == '\'' {
-			oc := sources[sg.Src][oOff]
+			var oc byte
+			if oOff < len(sources[sg.Src]) {
+				oc = sources[sg.Src][oOff]
+			}
 			if oOff < len(sources[sg.Src]) && oc != '"' && oc != '\'' && oc != '`' {
 				stat("string-to-non-string")
 			} else {
@@ -484,9 +508,15 @@ func init() {
 				files[k] = c
 			}
 			// several lines that each contain a substituted chunk path followed by more mapped tokens
-			files["dynx1.js"] = "export const k1 = 1;\np(\"dynx1\");\n"
-			files["dynx2.js"] = "export const k2 = 2;\np(\"dynx2\");\n"
-			files[g.Entries[0]] += "const zeta = p(\"zeta\", 5);\nimport(\"./dynx1.js\").then(d1 => p(\"d1\", d1.k1, zeta));\nimport(\"./dynx2.js\").then(d2 => p(\"d2\", d2.k2, zeta)); import(\"./dynx1.js\").then(d3 => p(\"d3\", d3.k1, zeta));\np(\"tail\", zeta);\n"
+			// (sometimes with non-ASCII file names: final paths whose UTF-8 and UTF-16 lengths differ)
+			dx1, dx2 := "dynx1.js", "dynx2.js"
+			if gr.Chance(1, 3) {
+				dx1, dx2 = "dÿnx-страница.js", "資産😀2.js"
+				rep.stat("non-ascii-chunk-names")
+			}
+			files[dx1] = "export const k1 = 1;\np(\"dynx1\");\n"
+			files[dx2] = "export const k2 = 2;\np(\"dynx2\");\n"
+			files[g.Entries[0]] += "const zeta = p(\"zeta\", 5);\nimport(\"./" + dx1 + "\").then(d1 => p(\"d1\", d1.k1, zeta));\nimport(\"./" + dx2 + "\").then(d2 => p(\"d2\", d2.k2, zeta)); import(\"./" + dx1 + "\").then(d3 => p(\"d3\", d3.k1, zeta));\np(\"tail\", zeta);\n"
 			// an input that itself carries a multi-source source map (a library bundled in a first stage)
 			twoStage := gr.Chance(1, 3)
 			if twoStage {
@@ -516,6 +546,9 @@ func init() {
 			v := "fmt=esm,sourcemap=external"
 			if ents > 1 || gr.Bool() {
 				v += ",splitting,entrynames=[name]-[hash],chunknames=chunks/[name]-[hash]"
+			}
+			if strings.Contains(v, "splitting") && gr.Chance(1, 4) {
+				v += ",publicpath=https://cdn.example/資産/"
 			}
 			v += pickS(gr, "", "", ",mw", ",ms,mi,mw", ",ascii")
 			if gr.Chance(1, 4) {
